@@ -8,6 +8,8 @@ meta = json.load(open(os.path.join(d, 'meta.json')))
 props = sys.argv[2:] or [meta['property']]
 assert subprocess.run(['git', '-C', '/repo', 'status', '--porcelain'], capture_output=True, text=True).stdout.strip() == '', '/repo not clean'
 out = {}
+# the evidence files belong to runs on the unchanged tree: keep them as they are (a run against a seeded change must not replace them)
+saved = {p: open(f'/verif/evidence/{p}.json', 'rb').read() for p in props if os.path.exists(f'/verif/evidence/{p}.json')}
 try:
     subprocess.run(['git', '-C', '/repo', 'apply', os.path.join(d, 'patch.diff')], check=True)
     for p in props:
@@ -18,4 +20,6 @@ try:
         print(p, 'exit', r.returncode, *lines[:6], sep='\n   ')
 finally:
     subprocess.run(['git', '-C', '/repo', 'checkout', '--', '.'], check=True)
+    for p, data in saved.items():
+        open(f'/verif/evidence/{p}.json', 'wb').write(data)
 json.dump(out, open(os.path.join(d, 'check_result.json'), 'w'), indent=1)
